@@ -938,7 +938,9 @@ class Check:
                 if not func(v):
                     raise ValueError('expected %r argument to be %s, not: %r'
                                      % (name, cond, v))
-            return val
+            # (any container of types will do: isinstance() and the
+            # error messages below need a tuple)
+            return tuple(val)
 
         # if there are other common validation functions, maybe a
         # small set of special strings would work as valid arguments
@@ -998,7 +1000,7 @@ class Check:
             if self.default is not RAISE:
                 return arg_val(target, self.default, scope)
             if len(self.vals) == 1:
-                errs.append(f"expected {self.vals[0]}, found {target}")
+                errs.append(f"expected {next(iter(self.vals))}, found {target}")
             else:
                 errs.append(f'expected one of {self.vals}, found {target}')
 
